@@ -452,6 +452,15 @@ fn spawn_actor_cmd(c: &mut Commands, inst: Inst, flavour: Flavour) -> SystemComm
         Flavour::Exclusive => c.spawn_system_command(excl_actor::<()>(inst)),
         Flavour::ExclusiveWarn => c.spawn_system_command(excl_actor::<WarnErr>(inst)),
         Flavour::InParamSet => c.spawn_system_command(ps_actor(inst)),
+        Flavour::CustomCb =>
+        {
+            let mut cb = CallbackSystem::<(), ()>::new(plain_actor::<()>(inst));
+            c.spawn_system_command_from(SystemCommandCallback::with(move |world: &mut World, _cleanup: SystemCommandCleanup|
+            {
+                cb.initialize(world);
+                let _ = cb.run(world, ());
+            }))
+        }
     }
 }
 
